@@ -504,10 +504,16 @@ func (w *worker) runMessage(m *message, rng *rand.Rand, exhaustive bool, other *
 			}
 		}
 		w.count("B_same_fields", 1)
-		// and Gate reads its own encoding
+		// Gate reading its own encoding is not part of the statement (only Floodgate's decoder
+		// is named for Gate-encoded data): observed and counted, a panic excepted.
 		rr := safeRead(m.fg, host)
-		if rr.panic != nil || rr.err != nil || rr.bd == nil || firstDiff(fieldsOf(rr.bd), m.rec) != "" {
-			w.violation("gate-does-not-read-its-own-encoding", fmt.Sprintf("err=%v panic=%v", rr.err, rr.panic), base)
+		switch {
+		case rr.panic != nil:
+			w.violation("ReadHostname-panics-on-valid-data", fmt.Sprintf("panic on Gate-encoded data: %v", rr.panic), base)
+		case rr.err != nil || rr.bd == nil || firstDiff(fieldsOf(rr.bd), m.rec) != "":
+			w.count("observation_gate_does_not_read_its_own_encoding", 1)
+		default:
+			w.count("observation_gate_reads_its_own_encoding", 1)
 		}
 	}()
 
@@ -774,7 +780,7 @@ func TestC39(t *testing.T) {
 	r.Assume("an accepted mutant is a violation unless Floodgate's decoder accepts the same bytes to the same plaintext (non-canonical trailing Base64 bits) or the bytes Gate's documented framing original\\x00data[:port] treats as data are unaltered")
 
 	nExh := r.N(200, 4000) // messages with exhaustive substitution
-	nLight := r.N(200, 2000)
+	nLight := r.N(120, 2000)
 	total := nExh + nLight
 
 	// the workload allocates a few short-lived objects per Gate call; a larger GC target keeps the
